@@ -33,7 +33,7 @@ FLOORS["thorough"].update({'big_arity_probes': 8})
 PROFILE = {"weights": {"timeout": 4, "zero": 1, "wait": 2, "succeed": 2.5, "fail": 1.2, "spawn": 1, "join": 1,
                        "interrupt": 0.6, "cb": 0.5, "cond": 5, "chain": 0.4, "cbint": 0.1},
            "max_top": 5, "max_child_scripts": 3, "min_ev": 1, "max_ev": 3, "p_exact": 0.9, "p_raise": 0.15,
-           "p_catch": 0.7, "cond_depth": 3, "p_rational": 0.03}
+           "p_catch": 0.7, "cond_depth": 3, "p_rational": 0.03, "reuse_conditions": True}
 
 
 def plan(tier):
